@@ -648,3 +648,84 @@ func (c *Ctx) radixDiscipline(rule string, rels ...string) {
 	}
 	c.ok(rule, "explicit radices are 2, 10 or 16", token.NoPos, fmt.Sprintf("%d conversions with a constant radix in %v", n, rels))
 }
+
+// aliasTableMixup: the code base names the key spaces of its sibling tables with type aliases
+// (NFTOpName / JettonOpName are both `= string`, so the compiler accepts either). A lookup of a
+// value declared with one alias in a table declared with a DIFFERENT alias of the same underlying
+// type consults the sibling's table: it works for the entries both tables share and silently
+// misses the rest.
+func (c *Ctx) aliasTableMixup(rule string, rels ...string) {
+	n := 0
+	for _, f := range c.moduleFuncs(rels...) {
+		allInstrs(f, func(_ *ssa.BasicBlock, in ssa.Instruction) {
+			lk, ok := in.(*ssa.Lookup)
+			if !ok {
+				return
+			}
+			mt, ok := types.Unalias(lk.X.Type()).Underlying().(*types.Map)
+			if !ok {
+				return
+			}
+			ka, ok1 := mt.Key().(*types.Alias)
+			ia, ok2 := lk.Index.Type().(*types.Alias)
+			if !ok1 || !ok2 {
+				return
+			}
+			n++
+			if ka.Obj() != ia.Obj() {
+				c.bad(rule, fmt.Sprintf("%s: %s looked up in a table keyed by %s", fnName(f), ia.Obj().Name(), ka.Obj().Name()), lk.Pos(), fmt.Sprintf("%s looks a value of type %s up in %s, a table keyed by %s (both are aliases of %s, so this compiles): it is the sibling codec's table - entries the two tables do not share are not found and the constructor is written without its opcode", fnName(f), ia.Obj().Name(), shape(lk.X, 2), ka.Obj().Name(), types.Unalias(ka).String()))
+			}
+		})
+	}
+	// writer/reader of one type use the same code space: the alias naming the VALUES of the table
+	// MarshalTLB consults is the alias naming the KEYS of the table UnmarshalTLB consults
+	aliasName := func(t types.Type) string {
+		if a, ok := t.(*types.Alias); ok {
+			return a.Obj().Name()
+		}
+		return ""
+	}
+	for _, rel := range rels {
+		p := c.pkg(rel)
+		if p == nil {
+			continue
+		}
+		for _, name := range p.Types.Scope().Names() {
+			w, r := c.fn(rel, name+".MarshalTLB"), c.fn(rel, name+".UnmarshalTLB")
+			if w == nil || r == nil {
+				continue
+			}
+			wv, rk := map[string]bool{}, map[string]bool{}
+			allInstrs(w, func(_ *ssa.BasicBlock, in ssa.Instruction) {
+				if lk, ok := in.(*ssa.Lookup); ok {
+					if mt, ok := types.Unalias(lk.X.Type()).Underlying().(*types.Map); ok {
+						if a := aliasName(mt.Elem()); a != "" {
+							wv[a] = true
+						}
+					}
+				}
+			})
+			allInstrs(r, func(_ *ssa.BasicBlock, in ssa.Instruction) {
+				if lk, ok := in.(*ssa.Lookup); ok {
+					if mt, ok := types.Unalias(lk.X.Type()).Underlying().(*types.Map); ok {
+						if a := aliasName(mt.Key()); a != "" {
+							rk[a] = true
+						}
+					}
+				}
+			})
+			if len(wv) == 0 || len(rk) == 0 {
+				continue
+			}
+			n++
+			common := false
+			for a := range wv {
+				if rk[a] {
+					common = true
+				}
+			}
+			c.check(common, rule, rel+"."+name+": writer and reader consult tables of one code space", w.Pos(), fmt.Sprintf("writer values %v, reader keys %v", sortedKeys(wv), sortedKeys(rk)), fmt.Sprintf("%s.%s.MarshalTLB takes its codes from a table whose values are %v, UnmarshalTLB looks codes up in a table keyed by %v: the writer consults a sibling codec's table (it compiles because the aliases share an underlying type); constructors the two tables do not share are written without their code", rel, name, sortedKeys(wv), sortedKeys(rk)))
+		}
+	}
+	c.ok(rule, "alias-keyed tables are consulted with their own key type", token.NoPos, fmt.Sprintf("%d lookups with alias-typed key and index in %v", n, rels))
+}
